@@ -25,7 +25,20 @@ type sigOut struct {
 }
 
 func signWith(t *rapid.T, d *big.Int, digest []byte, rd *gen.ScriptedReader) (sigOut, error) {
-	r, s, v, err := lib.PrivKey(d).SignRaw(rd, digest)
+	k := lib.PrivKey(d)
+	if rapid.Bool().Draw(t, "caller-scrubs-key-copies") {
+		// a caller may wipe everything a key handed out; the key (and the nonce derivation) must not care
+		b := k.Bytes()
+		for i := range b {
+			b[i] = 0
+		}
+		k.Scalar().Zero()
+		pb := k.PublicKey().Bytes()
+		for i := range pb {
+			pb[i] = 0
+		}
+	}
+	r, s, v, err := k.SignRaw(rd, digest)
 	if err != nil {
 		if r != nil || s != nil {
 			t.Fatal("SignRaw returned an error together with signature values")
